@@ -138,6 +138,14 @@ def check(ctx):
         if rec.get("req") and rec["fallback"]:
             import re as _re
             rec["fallback"] = [_re.sub(rf"\b{_re.escape(rec['req'])}\b", "REQ", t) for t in rec["fallback"]]
+        # The record is read along ONE variable holding the column from to_numpy() to the yield.  When the steps exist
+        # but are spread over several names (a whole-function rewrite), the idiom is not the one this rule reads: say so
+        # instead of reporting missing steps as violations.
+        any_store = [n for n in stm if isinstance(n, ast.Assign) and isinstance(n.targets[0], ast.Subscript)
+                     and isinstance(n.value, ast.Attribute) and n.value.attr == "na_value"]
+        if any_store and (rec["store"] is None or rec["values"] is None or rec["fast"] is None):
+            raise AnalysisError(f"{fn.qualname}: the import steps (to_numpy / DataFrameColumn.fast / masked na_value store) are no longer "
+                                f"written along one column variable; SIB-11 cannot read its feature record")
         recs[name] = (fn, rec, COL, NAME)
     (fa, a, ca, na_), (fp, b, cb_, nb_) = recs["from_arrow"], recs["from_pandas"]
     src_a = a["mask"] is not None and a["values"] is not None and a["mask"].startswith(f"{ca}.is_null(nan_is_null=True)") and a["values"].startswith(f"{ca}.to_numpy(")
